@@ -101,7 +101,11 @@ func checkPESDecode(c *mon.Ctx, stage string, idx int64, r *rand.Rand, pc *pesCa
 	}
 	var got *astits.PESData
 	var gerr error
-	if p, v, st := mon.Guarded(func() { got, gerr = astits.VerifParsePESData(b) }); p {
+	pin := b
+	if idx%2 == 1 {
+		pin = reusedBuf("c12", b)
+	}
+	if p, v, st := mon.Guarded(func() { got, gerr = astits.VerifParsePESData(pin) }); p {
 		c.Violate("C12/decode/panic", stage, idx, fmt.Sprintf("%v\n%s", v, st), data)
 		return
 	}
